@@ -11,6 +11,7 @@ from __future__ import annotations
 
 import asyncio
 import logging
+import os
 import random
 import warnings
 from binascii import unhexlify
@@ -278,6 +279,9 @@ class BridgeRun:
                     if "aioswitcher" in str(filename):
                         self.warn_n += 1
                 warnings.showwarning = show
+                from .clock import host_zone
+                zone_cm = host_zone(self.scn.get("zone", os.environ.get("TZ") or "UTC"))
+                zone_cm.__enter__()
                 try:
                     # {"do": "newloop"} ends the program's first asyncio.run() and begins another: the same bridge object, stopped
                     # by then, is used again under a different event loop ("close": the old loop is closed first, as run() does)
@@ -297,6 +301,7 @@ class BridgeRun:
                             seg = seg[1:]
                         self.loop.run_until_complete(self._main(seg, n == 0))
                 finally:
+                    zone_cm.__exit__(None, None, None)
                     warnings.showwarning = old
         finally:
             lg.removeHandler(h)
